@@ -279,3 +279,98 @@ func TestFollowOnEffects(t *testing.T) {
 }
 
 var _ = strings.Join
+
+// TestUpdatesDuringReload: a configuration reload replaces the dispatcher; the new one takes a
+// snapshot of the existing alerts and subscribes to later updates. An update that arrives while that
+// happens must end up in the groups through one of the two. Real clock; a large alert store stretches
+// the hand-over.
+func TestUpdatesDuringReload(t *testing.T) {
+	run := vf.Cur()
+	sub := run.Sub("updates-during-reload", "real app on the real clock holding 4000 other firing alerts; 12 times per case the (unchanged) configuration is reloaded while another goroutine submits NEW alerts (each its own label set) back to back for exactly the duration of the reload; after each reload every one of them must be in its group within 3 s (an update that fell between the new dispatcher's snapshot and its subscription never arrives); non-trivial = >=3 alerts were submitted while a reload was in progress; distinct by (case)", 2)
+	n := run.N(3, 60)
+	for i := 0; i < n; i++ {
+		gw, gi, ri := time.Hour, time.Hour, 4*time.Hour
+		byName := []string{"alertname"}
+		cfg := &scen.Config{ResolveTimeout: 5 * time.Minute, Route: &model.RouteSpec{Receiver: "r0", GroupBy: &byName, GroupWait: &gw, GroupInterval: &gi, RepeatInterval: &ri},
+			Receivers: []scen.Receiver{{Name: "r0", Integs: []scen.Integ{{SendResolved: true}}}}}
+		dir := sysrun.ScratchDir("C14", "reload", i)
+		in, err := sim.Start(sim.Options{ConfigYAML: cfg.YAML(), Dir: dir})
+		if err != nil {
+			t.Fatal(err)
+		}
+		far := time.Now().Add(3 * time.Hour)
+		var batch []sim.PostableAlert
+		for k := 0; k < 4000; k++ {
+			batch = append(batch, sim.PostableAlert{Labels: model.Labels{"alertname": fmt.Sprintf("F%d", k%50), "instance": fmt.Sprint(k)}, EndsAt: &far})
+			if len(batch) == 500 {
+				in.PostAlerts(batch...)
+				batch = nil
+			}
+		}
+		var during atomic.Int64
+		bad := false
+		for k := 0; k < 12 && !bad; k++ {
+			// new alerts (each its own label set, so none can hide the loss of another) are submitted back to
+			// back only WHILE the reload runs
+			var stopFlag atomic.Bool
+			var mu sync.Mutex
+			posted := map[string]bool{}
+			var wg sync.WaitGroup
+			wg.Add(1)
+			go func() {
+				defer wg.Done()
+				for j := 0; !stopFlag.Load(); j++ {
+					l := model.Labels{"alertname": "X", "instance": fmt.Sprintf("%d.%d.%d", i, k, j)}
+					if c, _ := in.PostAlerts(sim.PostableAlert{Labels: l, Annotations: model.Labels{"v": "1"}, EndsAt: &far}); c == 200 {
+						mu.Lock()
+						posted[l.Key()] = true
+						mu.Unlock()
+						during.Add(1)
+					}
+				}
+			}()
+			time.Sleep(time.Duration(1+k%5) * time.Millisecond)
+			err := in.Reload(cfg.YAML())
+			stopFlag.Store(true)
+			wg.Wait()
+			if err != nil {
+				sub.Inconclusive("reload: " + err.Error())
+				break
+			}
+			var missing []string
+			deadline := time.Now().Add(3 * time.Second)
+			for {
+				_, groups := in.GetGroups("")
+				seen := map[string]bool{}
+				for _, g := range groups {
+					for _, a := range g.Alerts {
+						seen[a.Labels.Key()] = true
+					}
+				}
+				missing = nil
+				for key := range posted {
+					if !seen[key] {
+						missing = append(missing, key)
+					}
+				}
+				if len(missing) == 0 || time.Now().After(deadline) {
+					break
+				}
+				time.Sleep(10 * time.Millisecond)
+			}
+			sub.Count("reloads_judged", 1)
+			if len(missing) > 0 {
+				sort.Strings(missing)
+				if len(missing) > 5 {
+					missing = missing[:5]
+				}
+				sub.Violation("alert-submitted-during-a-reload-never-reached-its-group", map[string]any{"case": i, "reload": k, "submitted_during_this_reload": len(posted), "missing_from_groups_after_3s": missing, "mode": "real time"})
+				bad = true
+			}
+		}
+		sub.Count("alerts_submitted_during_reloads", during.Load())
+		in.Stop()
+		os.RemoveAll(dir)
+		sub.Case(vf.Digest(i), during.Load() >= 3)
+	}
+}
